@@ -21,6 +21,7 @@ import (
 	"verifharness/faketc"
 	"verifharness/gen"
 	"verifharness/memdb"
+	"verifharness/quiet"
 	"verifharness/rep"
 	"verifharness/sys"
 )
@@ -159,8 +160,17 @@ func evalCase(r *rep.Run, e *sys.Env, c Case, idx int) {
 		before := e.Srv.Snapshot()
 		n := 0
 		hit := false
+		quiet.Spin(nil, 2) // nothing left over from the previous case is still running
+		e.Srv.WantGID = true
+		var owner int64 // the thread that runs the rollback transaction: the first one to touch the database after the delivery
 		e.Srv.Fault = func(op memdb.Op) error {
 			if op.Kind == "connect" {
+				return nil
+			}
+			if owner == 0 {
+				owner = op.GID
+			}
+			if op.GID != owner {
 				return nil
 			}
 			k := n
@@ -228,9 +238,10 @@ func evalCase(r *rep.Run, e *sys.Env, c Case, idx int) {
 		var rbStatus int
 		e.TC.Script = nil
 		armed := false
+		self := memdb.GoroutineID()
 		e.Srv.Sched = pointHook(func(desc string) {
-			if !armed || delivered {
-				return
+			if !armed || delivered || memdb.GoroutineID() != self {
+				return // positions are counted among the business thread's own database operations
 			}
 			k := n
 			n++
@@ -280,6 +291,7 @@ func evalCase(r *rep.Run, e *sys.Env, c Case, idx int) {
 				viol("late-final-state", fmt.Sprintf("position %d: first delivery %d, redelivery rollbacked, but the final state is %s, expected %s", c.N, rbStatus, biz(final), biz(pre)))
 			}
 		}
+		quiet.Spin(nil, 2) // connections are handed back on their own time
 		if e.Srv.OpenTxCount() != 0 || e.Srv.HeldLocks() != 0 {
 			viol("late-leak", fmt.Sprintf("position %d: open transactions %d, row locks %d", c.N, e.Srv.OpenTxCount(), e.Srv.HeldLocks()))
 		}
